@@ -277,23 +277,31 @@ def prove(assumptions, claim, stats, timeout_ms=None):
     fs = list(assumptions) + [z3.Not(claim)]
     nl = _is_nonlinear(fs) and not _has_int(fs)
     result = 'unknown'
-    for mk, share in _mk_solvers(nl):
-        s = mk()
-        s.set("timeout", max(500, int(timeout_ms * share)))
-        for f in fs:
-            s.add(f)
-        t = time.time()
-        try:
-            r = s.check()
-        except z3.Z3Exception:
-            r = z3.unknown
-        stats.prove_time += time.time() - t
-        if r == z3.unsat:
-            stats.discharged += 1
-            return 'unsat', None
-        if r == z3.sat:
-            stats.sat += 1
-            return 'sat', s.model()
+    # two rounds: the stated budget, then (only if still undecided) three times the budget with another random seed - z3's
+    # answer time on the same query varies by an order of magnitude between runs and seeds
+    for rnd, mult in ((0, 1), (1, 3)):
+        for mk, share in _mk_solvers(nl):
+            s = mk()
+            s.set("timeout", max(500, int(timeout_ms * share * mult)))
+            if rnd:
+                try:
+                    s.set("random_seed", 17)
+                except z3.Z3Exception:
+                    pass
+            for f in fs:
+                s.add(f)
+            t = time.time()
+            try:
+                r = s.check()
+            except z3.Z3Exception:
+                r = z3.unknown
+            stats.prove_time += time.time() - t
+            if r == z3.unsat:
+                stats.discharged += 1
+                return 'unsat', None
+            if r == z3.sat:
+                stats.sat += 1
+                return 'sat', s.model()
     stats.inconclusive += 1
     return result, None
 
